@@ -13,7 +13,7 @@ RULE = ('random operation histories over {finalize, bind, parse binding, parse m
         'compared with config_is_locked(), the binding store and the exception class after every operation, and every hook records '
         'the configuration it was shown. thorough adds all sequences of length<=4 over a 12-op alphabet. distinct = op-kind sequences')
 TIERS = {
-    'quick': {'workers': 8, 'cases': 700, 'timeout': 600, 'exhaustive_len': 0},
+    'quick': {'workers': 8, 'cases': 4200, 'timeout': 600, 'exhaustive_len': 0},
     'thorough': {'workers': 16, 'cases': 12000, 'timeout': 3000, 'exhaustive_len': 4},
 }
 REQUIRED_BUCKETS = ['op:finalize', 'op:bind', 'op:parse', 'op:macro', 'op:register', 'op:external', 'op:clear', 'op:unlock', 'op:unlock-raises',
